@@ -20,6 +20,9 @@ func runC14(c *Check, tier string) {
 	ruleR14d(c, "R14d")
 	ruleWritePathErrors(c, "R14e")
 	ruleR14f(c, "R14f")
+	// "success" is what the store path records and what the process exits with
+	useFamily(c, "R14h", famStore, 20)
+	shareRule(c, "R14i", "a non-nil execution error or any failed completion ends in a non-zero exit (same obligations as R05d)", 3, "R05d", func(sub *Check) { ruleR05d(sub, "R05d") }, nil)
 	// a timeout is a failure: the walker records every error but plain cancellation
 	if w := findWalker(c, "R14g"); w != nil {
 		shareRule(c, "R14g", "after the callback returned the node routine reports a completion on every path unless the error is context.Canceled (same obligation as R04c)", 1, "R04c", func(sub *Check) { ruleR04c(sub, w) }, func(k string) bool { return strings.Contains(k, "completion-on-every-exit") })
